@@ -1587,8 +1587,10 @@ def part_listener(run, n):
     try:
         for i in range(n):
             msgid = rng.choice(['1001', '42', g.string() or 'm', 'id "q" <x> & \t\n', 'é中\U0001F600', ' 7 '])
-            kind = rng.choice(['ok', 'ok', 'unknown_method', 'bad_params', 'not_instance', 'two_params', 'dup_params'])
+            kind = rng.choice(['ok', 'ok', 'unknown_method', 'bad_params', 'not_instance', 'two_params', 'dup_params',
+                               'two_inst_params', 'no_params', 'unknown_method_no_params'])
             method = 'ExportIndication'
+            pnames = ['NewIndication']
             inst = g.instance(with_path=False)
             try:
                 ixml = inst.tocimxml().toxml()
@@ -1598,7 +1600,9 @@ def part_listener(run, n):
             if kind == 'unknown_method':
                 method = rng.choice(['Foo', g.string() or 'x', 'Export "Indication" <&>', 'é中', 'a\tb\nc'])
             elif kind == 'bad_params':
-                params = '<EXPPARAMVALUE NAME="%s">%s</EXPPARAMVALUE>' % (attr_lit(rng.choice(['Other', g.string() or 'p', 'é'])), ixml)
+                bad = rng.choice(['Other', g.string() or 'p', 'é', 'newindication'])
+                pnames = [bad]
+                params = '<EXPPARAMVALUE NAME="%s">%s</EXPPARAMVALUE>' % (attr_lit(bad), ixml)
             elif kind == 'not_instance':
                 params = '<EXPPARAMVALUE NAME="NewIndication"><VALUE>%s</VALUE></EXPPARAMVALUE>' % \
                     attr_lit(g.string())
@@ -1606,6 +1610,14 @@ def part_listener(run, n):
                 params = params + '<EXPPARAMVALUE NAME="X"><VALUE>1</VALUE></EXPPARAMVALUE>'
             elif kind == 'dup_params':
                 params = params + params
+            elif kind == 'two_inst_params':
+                pnames = ['NewIndication', rng.choice(['Other', 'newindication', 'X'])]
+                params = params + '<EXPPARAMVALUE NAME="%s">%s</EXPPARAMVALUE>' % (pnames[1], ixml)
+            elif kind in ('no_params', 'unknown_method_no_params'):
+                pnames = []
+                params = ''
+                if kind == 'unknown_method_no_params':
+                    method = rng.choice(['exportindication', 'ExportIndication ', 'Foo'])
             text = export_request_text(msgid, method, params)
             try:
                 body = text.encode('utf-8')
@@ -1631,6 +1643,11 @@ def part_listener(run, n):
                          'code': int(err.get('CODE')) if err is not None and err.get('CODE', '').isdigit() else 0,
                          'desc': cimproto.cps(err.get('DESCRIPTION') or '') if err is not None else []})
             meta.append((case, data, kind, msgid, method))
+            # the decision of do_POST: which response for which (method name, parameter names)
+            reqs.append({'op': 'lpost', 'msgid': cimproto.cps(msgid), 'method': cimproto.cps(method),
+                         'params': [[cimproto.cps(n), True] for n in pnames], 'full': False,
+                         'desc': cimproto.cps(err.get('DESCRIPTION') or '') if err is not None else []})
+            meta.append((case, data, kind + ':decision', msgid, method))
     finally:
         lst.stop()
     answers = common.run_driver(PROP, reqs)
@@ -1642,7 +1659,7 @@ def part_listener(run, n):
         elif not ans['valid']:
             run.disagree(case, {'validTree': False, 'why': ans.get('why')}, {'lxml': 'ok'},
                          'validator: validTree vs lxml on a real listener response')
-        want_kind = 'ok' if kind == 'ok' else 'err'
+        want_kind = 'ok' if kind.split(':')[0] == 'ok' else 'err'
         if (b'<ERROR' in data) != (want_kind == 'err'):
             run.count('listener:unexpected_outcome_for_' + kind)
 
@@ -1663,7 +1680,10 @@ def run(run):
                 'values / operation calls with pywbem._cim_xml._CDATA_ESCAPING = True; systematic streams put every character '
                 'XML cannot carry into every value kind (str, Char16, names, hosts, namespaces, keys, property lists, query '
                 'strings) and send near-miss objects (empty strings next to None, mis-cased type names) through the '
-                'operations.  non-trivial = a document was emitted; distinct by text')
+                'operations; (6) the proved parser XmlParse.par against xml_to_tupletree_sax on the documents really emitted in this '
+                'run, validTree on the parsed tree against lxml; the listener decision model (which response for which export '
+                'request) against the real listener; tocimxmlValue against tocimxml(value).  non-trivial = a document was '
+                'emitted; distinct by text')
     run.assumptions += [
         'Codec / KeyCodec hypothesis records (float printing, CIMDateTime) instantiated by tables computed with Python for '
         'the inputs of this run',
